@@ -23,6 +23,10 @@ var c01Lines = []string{
 	"from 10.0.0.1 ok", "10.0.0.1 and 10.0.0.9", "edge 10.0.0.5", "edge 10.0.0.255 10.0.1.0", `ip=10.0.0.5 x=6`, `ip=10.0.0.255`, "peer 192.168.1.7", "v6 ::1 end", "no ip here", "10.0.0.9",
 	// values that parse as numbers but do not order: every ordered comparison with NaN is false, != is true
 	`x=NaN y=a`, `x=+Inf y=b`, `{"x":"NaN","y":"b"}`,
+	// numbers whose text is not the canonical rendering of their value: a comparison must not rewrite the label
+	`x=007 y=a`, `x=5.0 y=b`, `x=1e1 y=a`,
+	// the same malformed value in consecutive records (anything remembered from the previous record shows here)
+	`ip=notanip d=soon sz=big y=b`, `sz=big d=soon`, `sz= d= x=`,
 }
 
 // c01Records: every line once, unique timestamps, stream labels cycling through app in {x,y} x env in {p,absent}.
@@ -111,6 +115,9 @@ func c01Stages() []refmodel.Stage {
 		pb("or", pn("x", ">", "number", "5"), pb("and", ps("y", "=", "a"), ps("app", "=", "x"))),
 		pb("or", ps("y", "=", "a"), ps("y", "=", "b")),
 		pb("or", pn("x", "<", "number", "5"), pn("x", ">", "number", "6")),
+		pb("and", pn("x", ">", "number", "5"), ps("x", "=", "007")),
+		pb("and", pn("x", ">=", "number", "5"), ps("x", "=~", "5.0|1e1")),
+		ps("x", "=", "007"),
 	} {
 		a = append(a, lab(p))
 	}
@@ -136,7 +143,7 @@ func c01Selectors() [][]refmodel.Matcher {
 	var singles []refmodel.Matcher
 	for _, l := range []string{"app", "env", "msg", "missing"} {
 		for _, op := range []string{"=", "!=", "=~", "!~"} {
-			for _, v := range []string{"x", "y", "", "x|y", ".*", ".+", "x.*", "a"} {
+			for _, v := range []string{"x", "y", "", "x|y", ".*", ".+", "x.*", "a", "^a|b$"} {
 				singles = append(singles, refmodel.Matcher{Label: l, Op: op, Value: v})
 			}
 		}
